@@ -87,7 +87,16 @@ ConcatDescs == Flatten2([i \in DOMAIN GridSeq |-> Flatten2([d \in 1..Len(GridSeq
                  IN [t \in 1..3 |-> <<"c", "concat", <<g, SetDim(g, d, 1)>>, d - 1, Subsets2[t]>>]
                     \o [t \in 1..2 |-> <<"c", "concat", <<SetDim(g, d, 2), g, SetDim(g, d, 3)>>, d - 1, Subsets3[((t + i) % 4) + 1]>>]])])
 
-All == UnaryDescs \o BinDescs \o DotDescs \o MMDescs \o AlongDescs \o ShapeDescs \o SliceDescs \o PatchDescs \o ConcatDescs
+(* Two operand shapes in ONE graph (hence one process, one back-propagation) that collide under the usual ways of       *)
+(* folding a shape into a cache key: sum of (size * B^position) from either end for the bases B below, and the decimal  *)
+(* digits written without a separator. Results or helper tensors memoised per "shape" then meet the wrong shape.         *)
+Bases == <<31, 32, 33, 37, 64>>        \* larger bases make the symbolic gradient of the summed root too expensive for TLC
+PairShapes == Flatten2([i \in DOMAIN Bases |-> << <<<<2, 1>>, <<1, Bases[i] + 1>>>>, <<<<1, 2>>, <<Bases[i] + 1, 1>>>> >>])
+              \o << <<<<1, 12>>, <<11, 2>>>>, <<<<12>>, <<1, 2>>>>, <<<<2, 3>>, <<3, 2>>>>, <<<<6>>, <<2, 3>>>>, <<<<1, 4>>, <<2, 3>>>> >>
+PairOps == << <<"pow", [k |-> Zero]>>, <<"slice", [index |-> <<<<0, 1>>>>]>>, <<"pow", [k |-> Two]>>, <<"varalong", [dim |-> 0]>> >>
+PairDescs == Flatten2([i \in DOMAIN PairShapes |-> [o \in DOMAIN PairOps |-> <<"pair", PairOps[o][1], PairOps[o][2], PairShapes[i][1], PairShapes[i][2]>>]])
+
+All == PairDescs \o UnaryDescs \o BinDescs \o DotDescs \o MMDescs \o AlongDescs \o ShapeDescs \o SliceDescs \o PatchDescs \o ConcatDescs
 Descs == MyCases(All)
 
 (* y = op(...), z = y * g, back-propagate from z.  n: number of operands *)
@@ -104,8 +113,21 @@ BDom(op) == CASE op = "div" -> <<"any", "nz">>
               [] OTHER -> <<"any", "any">>
 ADom(op) == IF op \in {"maxalong", "minalong"} THEN "distinct,nearequal,tinyd" ELSE IF op = "stdalong" THEN "distinct" ELSE "any,distinct"
 
+(* op on a and on b, both results summed to one scalar root *)
+PairCase(op, par, s1, s2) ==
+  LET r1 == Len(YDims(op, par, <<s1>>))  r2 == Len(YDims(op, par, <<s2>>))
+      total(node, rank, base) ==                       \* Flatten(0) (rank >= 1), then SumAlong(0): a scalar; returns <<code, result node>>
+        IF rank = 0 THEN <<<<>>, node>>
+        ELSE <<<<Ins("flatten", [dim |-> 0], <<node>>), Ins("sumalong", [dim |-> 0], <<base + 1>>)>>, base + 2>>
+      t1 == total(3, r1, 4)
+      t2 == total(4, r2, 4 + Len(t1[1]))
+      code == <<Ins(op, par, <<1>>), Ins(op, par, <<2>>)>> \o t1[1] \o t2[1] \o <<Ins("add", NoPar, <<t1[2], t2[2]>>)>>
+      root == 2 + Len(code)
+  IN MkCase("c02", "pair-" \o op, <<In("a", s1, TRUE), In("b", s2, TRUE)>>, <<"any,distinct", "any,distinct">>, code, <<3, 4>>, root, FALSE)
+
 Build(d) ==
-  CASE d[1] = "u" -> WithG(d[2], <<In("a", d[3], TRUE)>>, <<UDom(d[2], d[4])>>, d[2], [k |-> d[4]], d[3])
+  CASE d[1] = "pair" -> PairCase(d[2], d[3], d[4], d[5])
+    [] d[1] = "u" -> WithG(d[2], <<In("a", d[3], TRUE)>>, <<UDom(d[2], d[4])>>, d[2], [k |-> d[4]], d[3])
     [] d[1] = "b" -> WithG(d[2], <<In("a", d[3], d[5][1]), In("b", d[4], d[5][2])>>, BDom(d[2]), d[2], NoPar,
                            YDims(d[2], NoPar, <<d[3], d[4]>>))
     [] d[1] = "d" -> WithG(d[2], <<In("a", d[3], TRUE)>>, <<ADom(d[2])>>, d[2], [dim |-> d[4]], YDims(d[2], [dim |-> d[4]], <<d[3]>>))
